@@ -292,6 +292,7 @@ Proof.
   - destruct (vec s); eexists; reflexivity.
   - destruct o; eexists; reflexivity.
   - destruct (closed s); eexists; reflexivity.
+  - destruct (closed s); eexists; reflexivity.
   - destruct (sclosed s); [|destruct (Z.ltb 0 (spermits s)); [|destruct b]]; eexists; reflexivity.
   - destruct (sclosed s); [|destruct a]; eexists; reflexivity.
   - destruct (closed s); eexists; reflexivity.
@@ -387,54 +388,19 @@ Proof.
   apply (sum_zero_le cl busy _ cl_nonneg cl_le_busy R).
 Qed.
 
-(* an object returned to a closed pool is destroyed (the five steps of Object::drop, run
-   without interference) *)
-Lemma step_DStart c s t o :
-  pcof s t = DStart o -> step c s (Step t) = Some (setpc (set_vec s (o :: vec s)) t DAvail).
-Proof. intros H. cbn [step]. unfold step_task. rewrite H. reflexivity. Qed.
-Lemma step_DAvail c s t :
-  pcof s t = DAvail -> step c s (Step t) = Some (setpc (set_avail s (avail s + 1)) t DPermit).
-Proof. intros H. cbn [step]. unfold step_task. rewrite H. reflexivity. Qed.
-Lemma step_DPermit c s t :
-  pcof s t = DPermit -> step c s (Step t) = Some (setpc (sem_add s) t DCheck).
-Proof. intros H. cbn [step]. unfold step_task. rewrite H. reflexivity. Qed.
-Lemma step_DCheck_closed c s t :
-  pcof s t = DCheck -> closed s = true -> step c s (Step t) = Some (setpc s t DClear).
-Proof. intros H Hc. cbn [step]. unfold step_task. rewrite H, Hc. reflexivity. Qed.
-Lemma step_DClear c s t :
-  pcof s t = DClear -> step c s (Step t) = Some (setpc (clear s t) t (PDone RUnit)).
-Proof. intros H. cbn [step]. unfold step_task. rewrite H. reflexivity. Qed.
-
+(* an object returned to a closed pool is destroyed by the returning thread in the one lock region of
+   Object::drop: nothing is queued, whatever the other threads do before or after *)
 Lemma returned_destroyed c s t o :
   closed s = true -> pcof s t = DStart o ->
-  exists s', run c s [Step t; Step t; Step t; Step t; Step t] = Some s'
-    /\ In o (dead s') /\ vec s' = [] /\ pcof s' t = PDone RUnit.
+  exists s', step c s (Step t) = Some s'
+    /\ In o (dead s') /\ vec s' = vec s /\ size s' = size s - 1 /\ pcof s' t = PDone RUnit.
 Proof.
-  intros Hc Hpc.
-  pose proof (step_DStart c s t o Hpc) as E1.
-  remember (setpc (set_vec s (o :: vec s)) t DAvail) as s1 eqn:D1.
-  assert (V1 : vec s1 = o :: vec s /\ closed s1 = true) by (subst s1; sp; split; [reflexivity|exact Hc]).
-  assert (P1 : pcof s1 t = DAvail) by (subst s1; apply pcof_setpc_same). clear D1.
-  pose proof (step_DAvail c s1 t P1) as E2.
-  remember (setpc (set_avail s1 (avail s1 + 1)) t DPermit) as s2 eqn:D2.
-  assert (V2 : vec s2 = o :: vec s /\ closed s2 = true) by (subst s2; sp; exact V1).
-  assert (P2 : pcof s2 t = DPermit) by (subst s2; apply pcof_setpc_same). clear D2.
-  pose proof (step_DPermit c s2 t P2) as E3.
-  remember (setpc (sem_add s2) t DCheck) as s3 eqn:D3.
-  assert (V3 : vec s3 = o :: vec s /\ closed s3 = true)
-    by (subst s3; sp; rewrite sem_add_vec, sem_add_closed; exact V2).
-  assert (P3 : pcof s3 t = DCheck) by (subst s3; apply pcof_setpc_same). clear D3.
-  pose proof (step_DCheck_closed c s3 t P3 (proj2 V3)) as E4.
-  remember (setpc s3 t DClear) as s4 eqn:D4.
-  assert (V4 : vec s4 = o :: vec s) by (subst s4; sp; exact (proj1 V3)).
-  assert (P4 : pcof s4 t = DClear) by (subst s4; apply pcof_setpc_same). clear D4.
-  pose proof (step_DClear c s4 t P4) as E5.
-  exists (setpc (clear s4 t) t (PDone RUnit)).
-  split; [cbn [run]; rewrite E1, E2, E3, E4, E5; reflexivity|].
-  destruct (clear_fields s4 t) as (F1&F2&F3&F4&F5&F6&F7&F8&F9&F10&F11&F12&F13&F14&F15).
-  split; [|split; [|apply pcof_setpc_same]].
-  - sp. rewrite F13, V4. left. reflexivity.
-  - sp. exact F7.
+  intros Hc Hpc. eexists. split.
+  - cbn [step]. unfold step_task. rewrite Hpc, Hc. reflexivity.
+  - cbn [emit_destroyed]. split; [|split; [|split; [|apply pcof_setpc_same]]]; sp.
+    + left. reflexivity.
+    + reflexivity.
+    + reflexivity.
 Qed.
 
 (* ------------------------------------------------------------------ run-level corollaries *)
